@@ -60,25 +60,14 @@ def construct(entries, libs):
         PR.Program.load_commands = old_load
 
 
-def register_harness(ctx, cfg):
-    """one step of the real metaclass: defining a command class from an arbitrary registry pre-state adds exactly
-    one entry for it unless an entry with the same (module, command name) exists - then the registry is unchanged"""
+def register_step(mods, names, newmod, newname, explicit):
+    """define one command class through the real metaclass from the given registry pre-state
+    -> (which earlier entries survive [bool per entry], number of added entries, the added entries are the new class)"""
     C = sys.modules['mpilot.commands']
-    n, L = cfg['entries'], cfg['maxlen']
-    alpha = z3.Star(z3.Union(z3.Range('a', 'c'), z3.Re('.')))
-
-    def sstr(name):
-        v = ctx.string(name)
-        ctx.assume(z3.And(z3.Length(v) <= L, z3.Length(v) >= 1, z3.InRe(v, alpha)))
-        return symx.SymStr(v)
-    mods = [sstr('module%d' % i) for i in range(n)]
-    names = [sstr('name%d' % i) for i in range(n)]
-    newmod, newname = sstr('newmodule'), sstr('newname')
-    explicit = ctx.decide(ctx.bool('explicit_name_attribute'))
     pre = set(C.CommandInfo(m_, FakeCommand(nm, i)) for i, (m_, nm) in enumerate(zip(mods, names)))
+    before = sorted(pre, key=lambda inf: inf.command.tag)
     old = C.CommandMeta._commands
     C.CommandMeta._commands = pre
-    before = list(pre)
     try:
         attrs = {'__module__': newmod}
         if explicit:
@@ -90,13 +79,61 @@ def register_harness(ctx, cfg):
     finally:
         C.CommandMeta._commands = old
     added = [x for x in after if not any(x is y for y in before)]
-    kept = all(any(x is y for x in after) for y in before)
-    same = z3.Or(*[z3.And(m_.e == newmod.e, nm.e == newname.e) for m_, nm in zip(mods, names)]) if n else z3.BoolVal(False)
-    obs = [('earlier registrations are never removed or replaced', z3.BoolVal(kept)),
-           ('the new class is registered iff no entry with the same module and command name exists', z3.BoolVal(len(added) == 1) == z3.Not(same)),
-           ('at most one entry is added, and it is the new class', z3.BoolVal(len(added) <= 1 and all(a.command is cls for a in added)))]
-    groups = {obs[0][0]: 'registry-kept', obs[1][0]: 'registry-first-wins', obs[2][0]: 'registry-added'}
-    return {'outcome': 'added' if added else 'kept', 'obligations': obs, 'groups': groups, 'validated': True,
+    survive = [any(x is y for x in after) for y in before]
+    return survive, len(added), all(a.command is cls for a in added)
+
+
+def register_reference(mods, names, newmod, newname, survive, nadded, added_ok):
+    """the three step obligations on concrete values"""
+    same = [m_ == newmod and nm == newname for m_, nm in zip(mods, names)]
+    kept_other = all(sm or sv for sm, sv in zip(same, survive))
+    count_key = sum(1 for sm, sv in zip(same, survive) if sm and sv) + nadded
+    return {'registry-kept': kept_other, 'registry-one-per-key': count_key == 1, 'registry-added': nadded <= 1 and added_ok}
+
+
+def register_harness(ctx, cfg):
+    """one step of the real metaclass: defining a command class from an arbitrary registry pre-state adds exactly
+    one entry for it unless an entry with the same (module, command name) exists; either way there is exactly one entry
+    per (module, command name) afterwards and all other entries are untouched"""
+    C = sys.modules['mpilot.commands']
+    n, L = cfg['entries'], cfg['maxlen']
+    alpha = z3.Star(z3.Union(z3.Range('a', 'c'), z3.Re('.')))
+
+    def sstr(name):
+        v = ctx.string(name)
+        ctx.assume(z3.And(z3.Length(v) <= L, z3.Length(v) >= 1, z3.InRe(v, alpha)))
+        return symx.SymStr(v)
+    mods = [sstr('module%d' % i) for i in range(n)]
+    names = [sstr('name%d' % i) for i in range(n)]
+    newmod, newname = sstr('newmodule'), sstr('newname')
+    # representation invariant of the registry (established by this very step): one entry per (module, name)
+    for i in range(n):
+        for j in range(i + 1, n):
+            ctx.assume(z3.Not(z3.And(mods[i].e == mods[j].e, names[i].e == names[j].e)))
+    explicit = ctx.decide(ctx.bool('explicit_name_attribute'))
+    survive, nadded, added_ok = register_step(mods, names, newmod, newname, explicit)
+    same = [z3.And(m_.e == newmod.e, nm.e == newname.e) for m_, nm in zip(mods, names)]
+    # which earlier entries survive: entries under another (module, name) key must; the entry under the new class's
+    # own key may be kept (first definition wins - what the code does today) or replaced by the new class (latest
+    # wins) - the property does not choose, it needs ONE entry per key (two would make every later Program that
+    # requests this library fail with a duplicate error, i.e. depend on the history of definitions)
+    kept_other = z3.And(*[z3.Or(sm, z3.BoolVal(sv)) for sm, sv in zip(same, survive)]) if n else z3.BoolVal(True)
+    count_key = z3.Sum([z3.If(sm, 1, 0) for sm, sv in zip(same, survive) if sv] + [z3.IntVal(nadded)])
+    obs = [('entries registered under another (module, command name) are never removed or replaced', kept_other),
+           ('afterwards exactly one entry is registered under the new class\'s (module, command name)', count_key == 1),
+           ('at most one entry is added, and it is the new class', z3.BoolVal(nadded <= 1 and added_ok))]
+    groups = {obs[0][0]: 'registry-kept', obs[1][0]: 'registry-one-per-key', obs[2][0]: 'registry-added'}
+
+    def concretise(m, label):
+        ev = lambda x: symx.model_value(m, x.e)      # noqa: E731
+        return {'kind': 'register', 'mods': [ev(x) for x in mods], 'names': [ev(x) for x in names], 'newmod': ev(newmod),
+                'newname': ev(newname), 'explicit': bool(explicit), 'group': groups.get(label)}
+
+    def path_check(m):
+        rec = concretise(m, None)
+        got = register_step(rec['mods'], rec['names'], rec['newmod'], rec['newname'], rec['explicit'])
+        return got == (survive, nadded, added_ok), 'symbolic step %s vs the concrete step %s on %s' % ((survive, nadded, added_ok), got, rec)
+    return {'outcome': 'added' if nadded else 'kept', 'obligations': obs, 'groups': groups, 'concretise': concretise, 'path_check': path_check,
             'replay': {'kind': 'register', 'entries': n}}
 
 
@@ -162,7 +199,11 @@ def reference(entries, libs):
 
 def confirm(rec, label):
     if rec.get('kind') == 'register':
-        return True, 'the explored path executed the real metaclass'
+        got = register_step(rec['mods'], rec['names'], rec['newmod'], rec['newname'], rec['explicit'])
+        ref = register_reference(rec['mods'], rec['names'], rec['newmod'], rec['newname'], *got)
+        bad = not ref.get(rec.get('group'), all(ref.values()))
+        return bad, 'real metaclass on registry %s defining (%r, %r): earlier entries surviving %s, %d added; obligations %s' % (
+            list(zip(rec['mods'], rec['names'])), rec['newmod'], rec['newname'], got[0], got[1], ref)
     entries = [tuple(e) for e in rec['entries']]
     oc, got = construct(entries, rec['libs'])
     member, clash = reference(entries, rec['libs'])
@@ -186,11 +227,11 @@ def replay(rec):
 def describe(tier):
     return {
         'level': 'model_checking',
-        'functions': ['mpilot/program.py: Program.__init__ (library filter, duplicate detection, command_library)', 'mpilot/commands.py: Command.get_commands, CommandInfo'],
+        'functions': ['mpilot/program.py: Program.__init__ (library filter, duplicate detection, command_library)', 'mpilot/commands.py: Command.get_commands, CommandInfo, CommandMeta.__new__ (registration step from an arbitrary registry pre-state)'],
         'bounds': {'quick': '<=3 registry entries with 1 library, <=2 entries with 2 libraries, module/command/library names = symbolic strings of length 1..4 over [a-c.]',
                    'thorough': '<=4 entries, names of length 1..6'},
         'outside': ['the import machinery itself (Program.load_commands is stubbed: the registry pre-state is arbitrary instead)', 'names longer than the bound / other alphabets',
-                    'the metaclass registration step (first class per (module, name) wins) is assumed as the representation invariant of the registry'],
+                    'which of two definitions with the same (module, name) wins (the step check only demands ONE entry per key, all other entries untouched; that is assumed as the representation invariant of the registry by the Program.__init__ check)'],
         'assumptions': ['S-load: load_commands does nothing; the registry pre-state is an arbitrary list of (module, command) entries, i.e. anything an earlier history could have produced',
                         'z3 sequence theory decides the prefix relations; counterexamples are replayed with concrete strings on the real Program.__init__'],
     }
